@@ -49,6 +49,23 @@ decreasing_by omega
 /-- value of a list of decimal digits -/
 def digitsVal (ds : List Nat) : Nat := ds.foldl (fun acc d => acc * 10 + d) 0
 
+/-- `s.split(sep)` for a non-empty `sep`: `skip` counts the characters of a separator occurrence
+    still to be dropped, `acc` is the current piece, reversed -/
+def splitGo (sep : Str) : Str → Nat → Str → List Str
+  | [], _, acc => [acc.reverse]
+  | _ :: rest, skip + 1, acc => splitGo sep rest skip acc
+  | c :: rest, 0, acc =>
+    if sep.isPrefixOf (c :: rest) then acc.reverse :: splitGo sep rest (sep.length - 1) []
+    else splitGo sep rest 0 (c :: acc)
+
+def splitStr (sep : Str) (s : Str) : List Str := splitGo sep s 0 []
+
+/-- `sep.join(parts)` -/
+def joinStr (sep : Str) : List Str → Str
+  | [] => []
+  | [x] => x
+  | x :: rest => x ++ sep ++ joinStr sep rest
+
 /-- uncaught exceptions that can leave `set()` -/
 inductive Raise
   | valueError        -- CPython's int -> str digit limit
